@@ -149,6 +149,10 @@ class Sem:
             return False
         return None
 
+    def exc_state(self, st, state):
+        """abstract state carried by the exceptional exit of a simple statement (default: the state before it)"""
+        return state
+
     def test_transfer(self, test, state):
         """effect of evaluating a branch/loop test expression (default: none)"""
         return state
@@ -185,7 +189,7 @@ class Sem:
         if isinstance(st, FUNC + (ast.ClassDef,)):
             return self.transfer(st, state), []
         if isinstance(st, ast.Return):
-            ex = [Exit("exc", state, st)] if (st.value is not None and expr_may_raise(st.value) and not self.atomic(st)) else []
+            ex = [Exit("exc", self.exc_state(st, state), st)] if (st.value is not None and expr_may_raise(st.value) and not self.atomic(st)) else []
             return None, ex + [Exit("return", self.transfer(st, state), st)]
         if isinstance(st, ast.Raise):
             et = None
@@ -217,7 +221,7 @@ class Sem:
         if isinstance(st, ast.Try):
             return self._try(st, state)
         new = self.transfer(st, state)
-        ex = [Exit("exc", state, st)] if self.may_raise(st) else []
+        ex = [Exit("exc", self.exc_state(st, state), st)] if self.may_raise(st) else []
         return new, ex
 
     def _loop(self, st, state):
